@@ -145,8 +145,11 @@ func (w *world) top() (map[string]*sg.Mod, []*sg.Node) {
 		// (top-level nodes written in a submodule are top-level nodes of the schema like any other; their types resolve in
 		// the submodule's scope)
 		for _, n := range m.Nodes {
-			owner[n.Name] = w.byName[m.Name]
 			tops = append(tops, n)
+		}
+		// (a top-level choice is transparent: its members are first tokens, too)
+		for _, n := range effKids(m.Nodes) {
+			owner[n.Name] = w.byName[m.Name]
 		}
 	}
 	return owner, tops
